@@ -14,7 +14,10 @@
 
 static uint32_t clk;
 static jmp_buf out;
-static struct { uint32_t d, w; } script[200000];
+#include <errno.h>
+static struct { uint32_t d, w; int intr; } script[200000];   /* intr >= 0: a signal arrives intr ticks into the iteration's first sleep */
+static int it_intr, it_pending_intr;
+static uint32_t it_asked, it_after;
 static long nscript, pos;
 static uint32_t it_t0, it_ret, it_t1, it_slept;
 static int it_calls, have_iter;
@@ -24,24 +27,53 @@ static void flush_iter(void)
 {
 	if (!have_iter) return;
 	/* relative to t0: the returned time, the time the scheduler call ended, what usleep was asked for */
-	printf("{\"e\":\"Iter\",\"d\":%d,\"w\":%u,\"slept\":%u,\"calls\":%d}\n", (int32_t)(it_ret - it_t0), it_t1 - it_t0, it_slept, it_calls);
+	printf("{\"e\":\"Iter\",\"d\":%d,\"w\":%u,\"slept\":%u,\"calls\":%d,\"intr\":%d,\"asked\":%u,\"after\":%u}\n", (int32_t)(it_ret - it_t0), it_t1 - it_t0,
+	       it_slept, it_calls, it_intr, it_asked, it_after);
 	have_iter = 0;
 }
 /* the clock and every way of sleeping a POSIX program has, all on the mock clock (the library's own time_posix.c is linked:
  * time_now() reads clock_gettime) */
 int clock_gettime(clockid_t id, struct timespec *ts) { (void)id; ts->tv_sec = clk / 1000000u; ts->tv_nsec = (clk % 1000000u) * 1000L; return 0; }
-static void slept_for(uint64_t us) { it_slept += (uint32_t)us; it_calls++; clk += (uint32_t)us; }
-int nanosleep(const struct timespec *rq, struct timespec *rm) { (void)rm; slept_for((uint64_t)rq->tv_sec * 1000000u + (rq->tv_nsec + 999) / 1000); return 0; }
+/* returns the part of the sleep that was NOT slept (0: slept in full).  The first sleep of an iteration may be cut short by a
+ * signal: the clock advances only as far as the signal, its handler posts a wake-up (what fibre_run_atomic from a signal
+ * handler amounts to for a scripted scheduler), and the primitive reports the interruption the POSIX way. */
+static uint64_t slept_some(uint64_t us)
+{
+	if (!it_calls) it_asked = (uint32_t)us;
+	it_calls++;
+	if (it_intr >= 0 && it_calls > 1) it_after += (uint32_t)us;     /* sleeping again although a wake-up is pending */
+	if (it_pending_intr >= 0 && (uint64_t)it_pending_intr < us) {
+		uint64_t k = (uint64_t)it_pending_intr;
+		it_intr = it_pending_intr; it_pending_intr = -1;
+		it_slept += (uint32_t)k; clk += (uint32_t)k;
+		return us - k;
+	}
+	it_pending_intr = -1;
+	it_slept += (uint32_t)us; clk += (uint32_t)us;
+	return 0;
+}
+static void slept_for(uint64_t us) { (void)slept_some(us); }
+static int eintr(void) { errno = EINTR; return -1; }
+int nanosleep(const struct timespec *rq, struct timespec *rm)
+{
+	uint64_t left = slept_some((uint64_t)rq->tv_sec * 1000000u + (rq->tv_nsec + 999) / 1000);
+	if (!left) return 0;
+	if (rm) { rm->tv_sec = left / 1000000u; rm->tv_nsec = (left % 1000000u) * 1000L; }
+	return eintr();
+}
 int clock_nanosleep(clockid_t id, int flags, const struct timespec *rq, struct timespec *rm)
 {
 	(void)id; (void)rm;
 	uint64_t t = (uint64_t)rq->tv_sec * 1000000u + (rq->tv_nsec + 999) / 1000;
-	if (flags & TIMER_ABSTIME) { int32_t dlt = (int32_t)((uint32_t)t - clk); slept_for(dlt > 0 ? dlt : 0); } else slept_for(t);
-	return 0;
+	uint64_t left;
+	if (flags & TIMER_ABSTIME) { int32_t dlt = (int32_t)((uint32_t)t - clk); left = slept_some(dlt > 0 ? dlt : 0); } else left = slept_some(t);
+	if (!left) return 0;
+	if (rm && !(flags & TIMER_ABSTIME)) { rm->tv_sec = left / 1000000u; rm->tv_nsec = (left % 1000000u) * 1000L; }
+	return EINTR;
 }
-int select(int n, fd_set *r, fd_set *w, fd_set *e, struct timeval *tv) { (void)n; (void)r; (void)w; (void)e; if (tv) slept_for((uint64_t)tv->tv_sec * 1000000u + tv->tv_usec); return 0; }
-int poll(struct pollfd *f, nfds_t n, int ms) { (void)f; (void)n; if (ms > 0) slept_for((uint64_t)ms * 1000u); return 0; }
-unsigned int sleep(unsigned int s) { slept_for((uint64_t)s * 1000000u); return 0; }
+int select(int n, fd_set *r, fd_set *w, fd_set *e, struct timeval *tv) { (void)n; (void)r; (void)w; (void)e; if (tv && slept_some((uint64_t)tv->tv_sec * 1000000u + tv->tv_usec)) return eintr(); return 0; }
+int poll(struct pollfd *f, nfds_t n, int ms) { (void)f; (void)n; if (ms > 0 && slept_some((uint64_t)ms * 1000u)) return eintr(); return 0; }
+unsigned int sleep(unsigned int s) { return (unsigned int)((slept_some((uint64_t)s * 1000000u) + 999999u) / 1000000u); }
 uint32_t fibre_scheduler_next(uint32_t t)
 {
 	flush_iter();
@@ -49,10 +81,11 @@ uint32_t fibre_scheduler_next(uint32_t t)
 	it_t0 = t; it_ret = t + script[pos].d;
 	clk += script[pos].w;          /* the dispatched fibre takes time */
 	it_t1 = clk; it_slept = 0; it_calls = 0; have_iter = 1;
+	it_intr = -1; it_pending_intr = script[pos].intr; it_asked = 0; it_after = 0;
 	pos++;
 	return it_ret;
 }
-int usleep(useconds_t us) { slept_for(us); return 0; }
+int usleep(useconds_t us) { return slept_some(us) ? eintr() : 0; }
 
 int main(void)
 {
@@ -68,11 +101,16 @@ int main(void)
 		for (unsigned b = 0; b < sizeof(bases) / sizeof(bases[0]); b++) {
 			nscript = 0;
 			for (unsigned i = 0; i < sizeof(ds) / sizeof(ds[0]); i++)
-				for (unsigned j = 0; j < sizeof(ws) / sizeof(ws[0]); j++) { script[nscript].d = ds[i]; script[nscript].w = ws[j]; nscript++; }
+				for (unsigned j = 0; j < sizeof(ws) / sizeof(ws[0]); j++) { script[nscript].d = ds[i]; script[nscript].w = ws[j]; script[nscript].intr = -1; nscript++; }
+			/* signals that arrive at every kind of moment of sleeps of every kind of length */
+			static const int ks[] = { 0, 1, 10, 499, 10000, 30000, 49999 };
+			for (unsigned i = 0; i < sizeof(ds) / sizeof(ds[0]); i++)
+				for (unsigned j = 0; j < sizeof(ks) / sizeof(ks[0]); j++) { script[nscript].d = ds[i]; script[nscript].w = ws[j % 3]; script[nscript].intr = ks[j]; nscript++; }
 			for (long k = 0; k < n && nscript < 199000; k++) {
 				unsigned x = drv_below(10);
 				script[nscript].d = x < 3 ? 0 : x < 6 ? drv_below(3000) : x < 8 ? drv_below(120000) : x < 9 ? FIBRE_UNBOUNDED_SLEEP : drv_rand() & 0x7fffffff;
 				script[nscript].w = drv_below(4) ? drv_below(1500) : drv_below(100000);
+				script[nscript].intr = drv_below(4) ? -1 : (int)drv_below(drv_below(2) ? 50000 : 2000);
 				nscript++;
 			}
 			pos = 0; clk = bases[b]; have_iter = 0;
